@@ -92,6 +92,7 @@ def mro(module, cls):
 def find_function(qual):
     """qual = 'pkg.mod:func' or 'pkg.mod:Class.method' -> (module_where_defined, class_or_None, FunctionDef)."""
     module, _, name = qual.partition(":")
+    name = name.split("@")[0]          # 'func@variant' : same function verified under a second contract
     if "." in name:
         cls, meth = name.split(".", 1)
         for m, cnode in mro(module, cls):
